@@ -77,3 +77,11 @@ def finish_engine(res, eng):
     res["queries"] += eng.nchecks
     res["solver_s"] += eng.solver_time
     res["paths"] += eng.npaths
+    from .pysym import CrossCheck
+    if CrossCheck.enabled:
+        st = CrossCheck.stats
+        res["cross"] = {k: st[k] for k in ("dumped", "agree", "unknown_or_timeout", "disagree")}
+        res["cross_notes"] = list(st["notes"])[:5]
+        for k in ("dumped", "agree", "unknown_or_timeout", "disagree"):
+            st[k] = 0
+        st["notes"] = []
